@@ -63,6 +63,9 @@ IMPORTS = ("from typedpy import (Structure, ImmutableStructure, Number, Integer,
 
 # ------------------------------------------------------------------ reified <-> python
 
+_THE_OBJECT = object()
+
+
 def unreify(r, ctx=None):
     """reified value -> Python object.  ctx: dict class name -> class (for structs)."""
     t = r[0]
@@ -102,7 +105,7 @@ def unreify(r, ctx=None):
         if r[1] == "bytes":
             return b"xy"
         if r[1] == "object":
-            return object()
+            return _THE_OBJECT      # one object: equal reified values must be equal (identical) Python values
         raise ValueError(r)
     raise ValueError(r)
 
